@@ -74,6 +74,7 @@ class Gen:
         self.n = 0              # sessions attached so far
         self.alive = []
         self.subs = {}          # session -> list of subscribed patterns (as sent)
+        self.subf = {}          # session -> {pattern as sent: the full "pattern@filter" it was last subscribed with}
         self.paths = {}         # session -> relative paths it has set (approximation)
 
     def attach(self):
@@ -81,6 +82,7 @@ class Gen:
         self.n += 1
         self.alive.append(k)
         self.subs[k] = []
+        self.subf[k] = {}
         self.paths[k] = []
         return "a"
 
@@ -103,6 +105,7 @@ class Gen:
             b = p.split("@")[0]
             if b not in have:
                 have.append(b)
+            self.subf[k][b] = p
         q = 1 if (self.allow_quiet and rng.random() < 0.15) else 0
         return ("p:%d:%d:%s" % (k, q, "&".join(ps))) if sep == ":" else ("p~%d~%s" % (q, "&".join(ps)))
 
@@ -160,7 +163,13 @@ class Gen:
         if not is_sub and r < 0.86:
             return self.set_cmd(k, sep) if r < 0.74 else self.rem_cmd(k, sep)
         if r < 0.93:
-            ps = uniq([with_filter(rng, subpat(rng, self.n)) for _ in range(rng.choice([1, 2]))])
+            # explicit GETDATA: half of the time for subscriptions the sender holds, with their filters (the mirror statement
+            # still applies then: cmd_covered), otherwise for anything
+            have = [b for b in self.subs[k] if b in self.subf[k]]
+            if have and rng.random() < 0.5:
+                ps = uniq([self.subf[k][rng.choice(have)] for _ in range(rng.choice([1, 1, 2]))])
+            else:
+                ps = uniq([with_filter(rng, subpat(rng, self.n)) for _ in range(rng.choice([1, 2]))])
             return ("g:%d:%s" % (k, "&".join(ps))) if sep == ":" else ("g~%s" % "&".join(ps))
         return self.set_cmd(k, sep)
 
@@ -204,6 +213,8 @@ DIRECTED = [
     "a;a;s:1:0:ab=1&b=2;p:0:0:/*/*/ab;u:0:ab;s:1:0:ab=3;u:0:/*/*/ab;s:1:0:ab=4",
     "a;a;s:1:0:ab=1;p:0:0:ab&/*/*/ab@g0;u:0:ab;s:1:0:ab=5;u:0:/*/*/ab;p:0:0:ab;u:0:/*/*/ab&ab;s:1:0:ab=6",
     "a;a;s:1:0:ab=1;b:0:p~0~/*/*/ab+u~ab+s~0~x=1;s:1:0:ab=2;b:0:u~/*/*/ab&/*/*/ab+p~0~ab;s:1:0:ab=3;u:0:ab;s:1:0:ab=4",
+    # explicit GETDATA of a subscriber for what it is subscribed to (alone, in a BATCH after the SUBSCRIBE:), then updates
+    "a;a;s:1:0:ab=6&ac=2;p:0:0:a*;p:1:1:ab;g:0:a*;b:0:p~0~ab@g4+g~ab@g4+s~0~x=1;s:1:0:ab=9;s:1:0:ab=1;g:0:a*&ab@g4;s:1:0:ac=3",
     # unsubscribe: the client's own pruning
     "a;a;s:1:0:ab=5&ac=6;p:0:0:a*&ab;u:0:a*;s:1:0:ab=7&ac=8;u:0:ab",
     # set then remove / remove then set across one flush; nested creation; recursive removal
@@ -344,8 +355,12 @@ class CHECK(vlib.Check):
     premises = ["client-mirror rule (Refl/Mirror.v): the client applies every PR_RESULT_DATAITEMS in order (removals first, then sets); the "
                 "server sends no removals on unsubscribe, so on its own unsubscribe the client drops what its remaining subscriptions "
                 "no longer cover",
-                "mirror_converges_partial holds for loud histories (no quiet set/remove/subscribe anywhere) and an observer that sends "
-                "no explicit GETDATA, batches no unsubscribe and whose SUBSCRIBE: fields per Message have distinct non-empty paths",
+                "mirror_converges_partial / mirror_converges_wire hold for histories in which every change of the tree is announced (no "
+                "quiet SETDATA/REMOVEDATA; other sessions may subscribe quietly, the observer not) and an observer whose explicit GETDATA "
+                "keys are subscriptions it holds at that moment (same path and filter), which batches no unsubscribe and whose SUBSCRIBE: "
+                "fields per Message have distinct non-empty paths",
+                "parameter names (Refl/Params.v): REMOVEPARAMETERS of a SUBSCRIBE: name the session does not hold as a parameter does nothing "
+                "('SUBSCRIBE:x' does not remove what 'SUBSCRIBE:/*/*/x' created); modelled as a layer that lowers the commands on the wire",
                 "MatchLaws (Refl/BaseProofs.v): clause text equality is decidable; '*' matches every name; a clause reported unique / "
                 "list-of-unique-values (ckeys) matches exactly the listed names (C15's unique_spec; F8 lies outside)",
                 "well-formed histories: a session arrives under a fresh (host, session-name) pair (ids come from a counter); fewer than "
@@ -356,8 +371,10 @@ class CHECK(vlib.Check):
     rule = ("multi-client histories generated from random.Random(seed) (streams: single subscriber with max-items changes; several "
             "subscribers; directed boundary scripts); after EVERY op: per-client PR_RESULT_DATAITEMS streams, the true tree with every "
             "node's subscriber table, every session's subscription entries and max-items, and every client's mirror are compared with "
-            "the extracted model (stream multimax: several subscribers with max-items changes, the per-op NET EFFECT of each client's "
-            "Messages instead of the Messages, because their split points depend on the unmodelled pool iteration order; stream malformed: "
+            "the extracted model (streams with several subscribers -- multi, multimax, pool: the per-op NET EFFECT of each client's "
+            "Messages plus the sorted BAG of everything sent instead of the Messages, because the split points depend on the iteration "
+            "order of the pooled subscriber tables, which is not modelled (set-then-remove and max-items flushes are server-wide); "
+            "stream malformed: "
             "paths and subscription strings with empty clauses such as a trailing '/', everything compared except the mirror statement); "
             "the harness's own oracles are evaluated after every op: mirror == foreign nodes accepted by PathMatcher::MatchesPath over the "
             "real tree, and refcount == every node's subscriber table holds for every attached session exactly "
